@@ -216,7 +216,7 @@ def _run(ctx):
     # rare configuration "an OS with a very large send buffer": one send()/write() call may accept an arbitrarily large payload in full
     # (NET.greedy for sockets, the same loop in the fd_write wrapper for File), and ONE payload of 1 MiB + k bytes is written among small ones
     big = ch.chance(1, cfg['big_den'], 'greedy-big')
-    st_big = dict(at=ch.randint(0, 3, 'big-at'), size=MIB + ch.choice([1, 4096, 300_000], 'big-k'), done=False) if big else None
+    st_big = dict(at=ch.randint(0, 2, 'big-at'), size=MIB + ch.choice([1, 4096, 300_000], 'big-k'), done=False) if big else None
     if big:
         ctx.stat('cfg:greedy-big')
         ctx.log('greedy-big', st_big['at'], st_big['size'])
